@@ -595,7 +595,8 @@ class BaseOptimizer(metaclass=ABCMeta):
             Q = pmf_xy / (np.sqrt(pmf_x) * np.sqrt(pmf_y))
             Q[np.isnan(Q)] = 0
 
-            mc = svdvals(Q)[1]
+            # a variable with a single symbol is uncorrelated with anything
+            mc = svdvals(Q)[1] if min(Q.shape) > 1 else 0.0
 
             return mc
 
@@ -620,8 +621,8 @@ class BaseOptimizer(metaclass=ABCMeta):
             The conditional maximum correlation.
         """
         idx_xyz = tuple(self._all_vars - (rv_x | rv_y | rv_z))
-        idx_xz = tuple(self._all_vars - (rv_x | rv_z))
-        idx_yz = tuple(self._all_vars - (rv_y | rv_z))
+        remaining = sorted(rv_x | rv_y | rv_z)
+        order = [remaining.index(v) for v in list(rv_x) + list(rv_y) + list(rv_z)]
 
         def conditional_maximum_correlation(pmf):
             """
@@ -638,12 +639,20 @@ class BaseOptimizer(metaclass=ABCMeta):
                 The mutual information.
             """
             p_xyz = pmf.sum(axis=idx_xyz)
-            p_xz = pmf.sum(axis=idx_xz)[:, np.newaxis, :]
-            p_yz = pmf.sum(axis=idx_yz)[np.newaxis, :, :]
+            # The remaining axes are in increasing order of their index, which
+            # need not be (x, y, z): bring them into that order.
+            p_xyz = np.transpose(p_xyz, order)
+            p_xz = p_xyz.sum(axis=1, keepdims=True)
+            p_yz = p_xyz.sum(axis=0, keepdims=True)
 
             Q = np.where(p_xyz, p_xyz / (np.sqrt(p_xz * p_yz)), 0)
 
-            cmc = max(svdvals(np.squeeze(m))[1] for m in np.dsplit(Q, Q.shape[2]))
+            def second_singular_value(m):
+                # a variable with a single symbol is uncorrelated with anything
+                m = np.atleast_2d(m)
+                return svdvals(m)[1] if min(m.shape) > 1 else 0.0
+
+            cmc = max(second_singular_value(m[:, :, 0]) for m in np.dsplit(Q, Q.shape[2]))
 
             return cmc
 
